@@ -106,6 +106,48 @@ theorem wf_TrustMessageElement : TrustMessageElement.WF := by decide
 theorem wf_FastFeature : FastFeature.WF := by decide
 theorem wf_Sasl2StreamFeature : Sasl2StreamFeature.WF := by decide
 theorem wf_StreamFeatures : StreamFeatures.WF := by decide
+theorem wf_ResultSetQuery : ResultSetQuery.WF := by decide
+theorem wf_FastToken : FastToken.WF := by decide
+theorem wf_Sasl2Success : Sasl2Success.WF := by decide
+/-- `QXmppResultSetReply` once `<count/>` is read like the other integers (fixes/C01-resultset-count-and-unset.diff) -/
+theorem wf_ResultSetReply_fixed : ResultSetReply.WF := by decide
+
+/-! ## defect of today's code -/
+
+/-- **`QXmppResultSetReply` does not keep "count unset".** `parse` reads `<count/>` with `toInt()` and no
+fallback, so the reply `{first = "a", count unset}` serializes to
+`<set xmlns="http://jabber.org/protocol/rsm"><first>a</first></set>` and reads back with `count = 0`.  The
+round-trip statement is false for the schema of the code as it is. -/
+theorem C01_defect_resultsetreply_count :
+    ¬ (∀ v, ResultSetReplyCode.Canon v → ResultSetReplyCode.decode (ResultSetReplyCode.encode v) = v) := by
+  intro h
+  have h1 := h [.record [.record [.opt none, .str "a".toList], .absent, .record [.opt none]]] (by decide)
+  have h2 : ResultSetReplyCode.decode (ResultSetReplyCode.encode
+      [.record [.record [.opt none, .str "a".toList], .absent, .record [.opt none]]])
+      = [.record [.record [.opt none, .str "a".toList], .absent, .record [.opt (some 0)]]] := by
+    rfl
+  rw [h2] at h1
+  simp at h1
+
+/-- …and its own output form does not survive parse-then-serialize: `<count>0</count>` appears -/
+theorem C01_defect_resultsetreply_own_form :
+    ¬ (∀ v, ResultSetReplyCode.Canon v →
+        ResultSetReplyCode.norm (ResultSetReplyCode.encode v) = some (ResultSetReplyCode.encode v)) := by
+  intro h
+  have h1 := h [.record [.record [.opt none, .str "a".toList], .absent, .record [.opt none]]] (by decide)
+  have e1 : ResultSetReplyCode.encode
+      [.record [.record [.opt none, .str "a".toList], .absent, .record [.opt none]]]
+      = .elem "x".toList [] [.elem "set".toList [("xmlns".toList, nsRsm)]
+          [.elem "first".toList [] [.text "a".toList]]] := by rfl
+  have e2 : ResultSetReplyCode.norm (.elem "x".toList [] [.elem "set".toList [("xmlns".toList, nsRsm)]
+          [.elem "first".toList [] [.text "a".toList]]])
+      = some (.elem "x".toList [] [.elem "set".toList [("xmlns".toList, nsRsm)]
+          [.elem "first".toList [] [.text "a".toList], .elem "count".toList [] [.text "0".toList]]]) := by rfl
+  rw [e1, e2] at h1
+  simp at h1
+
+/-- the generic theorems do not apply to the schema of the code as it is: it is not well-formed -/
+theorem not_wf_ResultSetReplyCode : ¬ ResultSetReplyCode.WF := by decide
 
 /-! ## non-vacuity: concrete values meeting the hypotheses -/
 
